@@ -314,12 +314,90 @@ def check(run):
                 run.corr_disagreements += 1
                 run.obligation('correspondence model=code (jugdir expansion)', False, 'template=%r jugfile=%r model=%r code=%r' % (tmpl, jf, a, seen))
     store_family(run, drv, rng, date, quick)
+    fresh_process_family(run, rows, defaults, rng, 6 if quick else 60)
     run.counts['subcommands_seen'] = len(subs_seen)
     run.counts['shapes'] = shapes
     if drv is not None:
         if run.corr_disagreements == 0:
             run.obligation('correspondence model=code on %d parse() calls' % run.corr_programs, True)
         drv.close()
+
+
+FRESH = '''
+import sys, json
+import jug.options as O
+args, dests = json.loads(sys.argv[1]), json.loads(sys.argv[2])      # parse() rewrites sys.argv for the jugfile
+o = O.parse(args)
+out = {}
+for d in dests:
+    v = getattr(o, d, None)
+    out[d] = [type(v).__name__, repr(v)]
+print('RESULT ' + json.dumps(out))
+'''
+
+RC_LOCATIONS = ['.config/jug/jugrc', '.config/jugrc', '.jug/configrc']      # in order of preference: the first that exists is THE configuration file
+
+
+def fresh_process_family(run, rows, defaults, rng, n):
+    """`jug SUB jugfile.py` as the first thing a new interpreter does (nothing of jug imported before), with the user's configuration in $HOME: the file
+    that counts is the first existing one of the three documented locations; every value in it is converted to the type of the option's default -
+    also for options that only a subcommand defines; a configuration file further down the list contributes nothing"""
+    import subprocess
+    subs = sorted(set(r['sub'] for r in rows))
+    for i in range(n):
+        c = gen_case(rng, rows, defaults, False)
+        while not c['ini'] or any(k in c['ini'] for k in ('jugfile',)):
+            c = gen_case(rng, rows, defaults, False)
+        sub = subs[i % len(subs)]
+        args = [sub] + (['--target', 'x'] if sub == 'invalidate' else []) + ['jugfile.py']
+        home = core.scratch_dir('jugverif-home-')
+        try:
+            # which locations exist: the real configuration at `main_loc`, decoys (other values for other and for the same keys) further down the list
+            main_loc = rng.randrange(3)
+            decoys = [j for j in range(main_loc + 1, 3) if rng.random() < 0.7]
+            decoy_ini = {}
+            for dest, dv in sorted(defaults.items()):
+                if dest in ('subcommand', 'argv', 'jugfile', 'jugdir', 'verbose') or rng.random() < 0.4:
+                    continue
+                decoy_ini[dest] = '1' if isinstance(dv, bool) else ('77' if isinstance(dv, int) else 'decoy')
+
+            def text_of(ini):
+                sections = {}
+                for dest, v in ini.items():
+                    sct, k = section_key(dest, subs)
+                    sections.setdefault(sct, []).append((k, v))
+                return ''.join('[%s]\n' % sct + ''.join('%s = %s\n' % kv for kv in sections[sct]) for sct in sorted(sections))
+            for j in [main_loc] + decoys:
+                fn = os.path.join(home, RC_LOCATIONS[j])
+                os.makedirs(os.path.dirname(fn), exist_ok=True)
+                with open(fn, 'w') as f:
+                    f.write(c['ini_text'] if j == main_loc else text_of(decoy_ini))
+            dests = [d for d in dict.fromkeys([r['dest'] for r in rows if r['sub'] == sub and r['dest'] not in ('help', 'user_args')] + list(defaults))
+                     if d not in ('subcommand', 'argv', 'jugfile', 'jugdir')]
+            env = dict(os.environ, HOME=home, PYTHONPATH=core.REPO)
+            p = subprocess.run([sys.executable, '-c', FRESH, json.dumps(args), json.dumps(dests)], cwd=home, env=env, stdout=subprocess.PIPE, stderr=subprocess.PIPE, text=True, timeout=120)
+            rp = {'kind': 'fresh-process-parse', 'args': args, 'files': {RC_LOCATIONS[j]: (c['ini_text'] if j == main_loc else text_of(decoy_ini)) for j in [main_loc] + decoys}}
+            run.case(('fresh-parse', i, run.seed), nontrivial=bool(decoys))
+            run.count('fresh_process_parses')
+            line = [ln for ln in p.stdout.splitlines() if ln.startswith('RESULT ')]
+            if p.returncode != 0 or not line:
+                run.fail('parse-rejects-wellformed', 'in a new interpreter parse(%r) with the configuration files %s fails: %s' % (args, sorted(rp['files']), (p.stderr or p.stdout)[-300:]), rp)
+                continue
+            got = json.loads(line[-1][7:])
+            for dest in dests:
+                dv = defaults.get(dest)
+                if dest in c['ini']:
+                    exp = type(dv)(c['ini'][dest]) if dv is not None else c['ini'][dest]
+                    src = 'the configuration file ~/%s' % RC_LOCATIONS[main_loc]
+                else:
+                    exp = dv
+                    src = 'the default (~/%s does not set it%s)' % (RC_LOCATIONS[main_loc], '; ~/%s, further down the list, is not the configuration file' % RC_LOCATIONS[decoys[0]] if decoys and dest in decoy_ini else '')
+                if got.get(dest) != [type(exp).__name__, repr(exp)]:
+                    run.fail('fresh-precedence:%s' % dest, 'a new interpreter running `jug %s`: option %s is %s %s, expected %s %r from %s' % (' '.join(args), dest, got.get(dest, ['?', '?'])[0], got.get(dest, ['?', '?'])[1],
+                                                                                                                                     type(exp).__name__, exp, src), rp)
+                    break
+        finally:
+            core.rm_rf(home)
 
 
 PROJECT = """import sys
